@@ -130,6 +130,8 @@ func c07IsNilPredicate(f *ssa.Function) bool {
 
 var c07SizeOK = map[string]string{}
 
+var c07WalkOK = map[string]string{}
+
 var c07OptionalOK = map[string]string{
 	"bytecode.callRuntimeFunction|optional member Declaration#6": "reached only for a definition marked Sandboxed; that flag is set by DefineNativeSandboxedFunction and by the data.Function literals of the runtime packages, all of which carry a Declaration (R-C11-1 reads the same literals)",
 	"data.Type.String|optional member valueType#2":               "map types are built by MapType(key, value), which always sets the value type; the nil test in this function belongs to the named-type case",
@@ -571,6 +573,7 @@ func runC07(w *World, r *Report) {
 	r.Rule("R-C07-9", "every make of a slice or channel whose size is computed from an integer the running program chose (data.Int of a function argument or a stack value; parameters are followed into their callers, three levels) is reachable only through a lower-bound and an upper-bound comparison of that integer, or sits under a deferred recover", 3)
 	r.Rule("R-C07-10", "a constant index, a constant slice bound, or a slice s[a:len(s)-b] into a slice or string of unknown length is behind a length test (or a prefix/suffix/emptiness test) that implies the element exists", 100)
 	r.Rule("R-C07-11", "a pointer-typed struct member that the function tests against nil somewhere is dereferenced only where a test of the same member found it non-nil (or right after it was given a fresh object)", 20)
+	r.Rule("R-C07-12", "a function that lists a directory and calls itself for the entries recurses only behind the not-yet-visited edge of a string-keyed visited set that it has just extended", 1)
 	r.Rule("R-C07-6", "every recover() in the repository is called directly by a function that is the target of a defer statement (a recover() in a helper recovers nothing)", 4)
 
 	var fns []*ssa.Function
@@ -922,6 +925,79 @@ func runC07(w *World, r *Report) {
 	// ---- R-C07-11: optional members
 	for _, fn := range fns {
 		c40OptionalMembers(w, r, fn, "R-C07-11", c07OptionalOK)
+	}
+
+	// ---- R-C07-12: directory walks end
+	for _, fn := range fns {
+		readsDir := false
+
+		var self []ssa.CallInstruction
+
+		allCalls(fn, func(ci ssa.CallInstruction) {
+			switch callID(ci.Common()) {
+			case "os.ReadDir", "io/ioutil.ReadDir", "os.File.Readdir", "os.File.ReadDir":
+				readsDir = true
+			}
+
+			if calleeFunction(ci.Common()) == fn {
+				self = append(self, ci)
+			}
+		})
+
+		if !readsDir || len(self) == 0 {
+			continue
+		}
+
+		for n, ci := range self {
+			key := fnKey(fn) + "|recursive directory walk"
+			if n > 0 {
+				key += "#" + sprintInt(n+1)
+			}
+
+			// the "not yet visited" edge of a lookup in a set of strings
+			var sets []ssa.Value
+
+			cuts := cutEdges(fn, func(f Fact) bool {
+				if f.Kind != "false" {
+					return false
+				}
+
+				lk, ok := f.V.(*ssa.Lookup)
+				if !ok {
+					return false
+				}
+
+				mt, ok := lk.X.Type().Underlying().(*types.Map)
+				if !ok || !isStringType(mt.Key()) {
+					return false
+				}
+
+				sets = append(sets, lk.X)
+
+				return true
+			})
+
+			marked := false
+
+			allInstrs(fn, func(in ssa.Instruction) {
+				if mu, ok := in.(*ssa.MapUpdate); ok && instrDominates(mu, ci) {
+					for _, st := range sets {
+						if mu.Map == st {
+							marked = true
+						}
+					}
+				}
+			})
+
+			switch {
+			case len(cuts) > 0 && marked && !instrReachableAfterCut(fn, ci, cuts):
+				r.Discharge("R-C07-12", key, w.pos(ci.Pos()), "recurses only for a directory that is not yet in the visited set, after adding it")
+			case c07WalkOK[key] != "":
+				r.Except("R-C07-12", key, w.pos(ci.Pos()), c07WalkOK[key])
+			default:
+				r.Violate("R-C07-12", key, w.pos(ci.Pos()), "this function lists a directory and calls itself for the entries without a visited set: when an entry leads back to a directory already walked (under the sandbox an escaping symbolic link is sent back to the sandbox root) the recursion does not end and the Go runtime kills the process")
+			}
+		}
 	}
 
 	// ---- R-C07-6: a recover() that can recover
